@@ -622,9 +622,16 @@ func (p *Path) threadExit(th *Thread) {
 			}
 		}
 		if alive {
+			var sb strings.Builder
+			sb.WriteString("all remaining threads blocked:\n")
+			for _, t := range p.threads {
+				if !t.done {
+					fmt.Fprintf(&sb, "thread %d blocked:\n%s", t.id, t.stack())
+				}
+			}
 			func() {
 				defer func() { recover() }()
-				p.deadlock("all remaining threads blocked")
+				p.deadlock(sb.String())
 			}()
 		}
 		return
